@@ -147,4 +147,9 @@ def dependencySum (n : Nat) (edge : Nat → Nat → Bool) (v : Nat) : Rat :=
 /-- betweenness of an undirected graph: every unordered pair once -/
 def betweennessSpec (n : Nat) (edge : Nat → Nat → Bool) (v : Nat) : Rat := dependencySum n edge v / 2
 
+/-- betweenness of an undirected graph, textbook form: every unordered pair `{s, t}` (both different from `v`) once -/
+def betweennessUndirected (n : Nat) (edge : Nat → Nat → Bool) (v : Nat) : Rat :=
+  ((List.range n).map fun s => ((List.range n).map fun t =>
+    if s < t ∧ s ≠ v ∧ t ≠ v then pairDep n edge s t v else 0).sum).sum
+
 end SkNet.RankSpec
